@@ -3,11 +3,12 @@ from vcommon import *
 import scen_common
 
 PID = "C04"
-PROP_V = ["Props/Properties_C04.v", "Props/Properties_C01x.v"]
+PROP_V = ["Props/Properties_C04.v", "Props/Properties_C01x.v", "Props/Properties_C04x.v"]
 GEN_MODULES = ["Consts", "Sites"]
 FLOW_FILES = ['cv.c', 'sem_wait.c', 'mu.c', 'wait.c']
 REPLAY_HINT = "VRT_SEED=<seed> VRT_MODE=<m> _work/h/cv_mix (or waitn_mix)"
-PARTIAL = ["C04_no_lost_wakeup(_waitn): a waiter at its semaphore wait whose record a waker took is still on that waker's private list, or on the abstract "
+PARTIAL = ["after the F15 repair: C04_waiting_bit_has_a_waiter / C04_waiting_bit_exact (CvModel: at wake_waiters' release MU_WAITING is left set only if a transferred record is on the mutex queue or the environment reported a plain locker queued; the replayer derives that choice from the trace and fails on a cleared bit over a non-empty queue or a kept bit over an empty one; cv_mix MODE 7 exercises the clearing branch), C04_abstract_mutex_lock_field (the lock field of the abstract mutex word counts the model's holders), C04_mu_spin_section; the environment actor MuDeq is refused while a wake_waiters thread owns the mutex spinlock (the real dequeue needs that spinlock)",
+           "C04_no_lost_wakeup(_waitn): a waiter at its semaphore wait whose record a waker took is still on that waker's private list, or on the abstract "
            "mutex's queue / wake list, or has waiting = 0 with a post available, its waker at the V for it, or a post owed by the abstract mutex.  C04_no_stuck / "
            "C04_no_stuck_waitn are proved for quiescent worlds in which the ABSTRACT mutex holds no transferred waiter and owes no post (muq = mwake = [], owed = 0); "
            "without 'owes no post' the statement is refuted (C04_no_stuck_uncoupled_refuted: an unlocker that clears waiting and never posts), a behaviour mu.c excludes "
@@ -20,12 +21,16 @@ PARTIAL = ["C04_no_lost_wakeup(_waitn): a waiter at its semaphore wait whose rec
            "'(0, or the object's index from nsync_wait_n)': CvModel logs only was_queued for nsync_wait_n records; the returned index is WaitNModel's theorem (C11_index_world)",
            "configurations: CvModel has one cv, one mutex, one note; waiter-struct reuse across two cvs (remove_count carries over) is covered by the scenario oracles only",
            "the mutex inside CvModel is abstract (atomic lock field, environment actors for the queue hand-over); its concrete counterpart is Model/MuXferModel.v "
-           "(Properties_C01x: MuModel stepped unchanged + cv waits, wake_waiters site by site, transfer, designated-waker re-entry): C04x_transfer_sound (a transferred "
-           "waiter whose flag is still set is on the mutex queue or on the wake list of a thread inside nsync_mu_unlock_slow_), C04x_queue_sets_waiting (MU_WAITING is set "
-           "whenever the queue is non-empty and the spinlock free, so mu.c's release will find it), C04x_spinlock_exclusive, C04x_no_lost_transfer_partial (in a "
-           "quiescent world a sleeping transferred waiter is on the queue, MU_WAITING is set and no fast-path release is possible); C04x_no_lost_transfer_full "
-           "(such a waiter never sleeps beside a FREE mutex) is a Definition: it needs MuProof3's HInv lifted to this wrapper (done for the debugger wrapper, "
-           "not for this one); 30000 random programs of the extracted model show no counterexample"]
+           "(Properties_C01x / C04x: MuModel stepped for the base threads + cv waits, wake_waiters site by site, transfer, designated-waker re-entry; updated to the F15 "
+           "repair): C04x_transfer_sound, C04x_queue_sets_waiting, C04x_waiting_only_if_queued (queue empty => MU_WAITING clear whenever the spinlock is free: the F15 "
+           "repair as an invariant), C04x_spinlock_exclusive; the hand-off invariant of C02 LIFTED to this wrapper (Proof/MuXferProof4-8): "
+           "C04x_handoff_all_states (in EVERY reachable world a non-empty queue with no holder and the spinlock free has a live waker: a waiter whose flag has been "
+           "cleared, a designated waker inside lock_slow, a transferred cv waiter with its flag cleared, or a releaser with a non-empty wake list), "
+           "C04x_no_lost_transfer_full (no transferred waiter sleeps beside a free mutex in a quiescent world), C04x_holder_is_responsible, "
+           "C04x_last_holder_must_scan, C04x_cleared_flag_has_post (the coupling CvModel trusts), and for the result: C05x_transferred_returns_zero / "
+           "C05x_zero_until_return (a waiter that was transferred or woken returns 0 even if its deadline expires afterwards).  Abstractions of MuXferModel: the cv "
+           "spinlock as three atomic sections, native waiters on one cv and one mutex, cv word and remove_count not modelled; 'MU_DESIG_WAKER set' is NOT part of the "
+           "all-states form (a batch of woken readers shares one bit: the first to acquire clears it)"]
 TRUSTED_BASE = ["CvModel's abstract mutex couples the unlocker's store waiting = 0 with its V through the ghost counter `owed`; the coupling (each MuWakeSt is followed by "
                 "that thread's V on the same waiter, nothing owed at the end) is validated on every replayed trace by replay/cv_replay.ml, as is 'every signal/broadcast "
                 "call past the early exit is logged' (#sites 306/404 = |wlog|)",
@@ -39,9 +44,9 @@ TRUSTED_BASE = ["CvModel's abstract mutex couples the unlocker's store waiting =
 def run(tier, seed):
     import mu_common
     res = {"violations": [], "broken": [], "coverage": {}}
-    tie = mu_common.tie(res, "cv_replay", "CvModel", [("cv_mix", {"VRT_MODE": m}, 150, 1500) for m in (0, 1, 2, 3)], tier, seed)
+    tie = mu_common.tie(res, "cv_replay", "CvModel", [("cv_mix", {"VRT_MODE": m}, 150, 1500) for m in (0, 1, 2, 3)] + [("cv_mix", {"VRT_MODE": 7}, 100, 1000)], tier, seed)
     specs = [("cv_mix", {"VRT_MODE": 0}, 2000, 40000), ("cv_mix", {"VRT_MODE": 1}, 1500, 30000), ("cv_mix", {"VRT_MODE": 2}, 1000, 20000),
-             ("cv_mix", {"VRT_MODE": 3}, 1500, 30000), ("cv_mix", {"VRT_MODE": 4}, 3000, 60000), ("waitn_mix", {"VRT_KIND": 2}, 1500, 30000),
+             ("cv_mix", {"VRT_MODE": 3}, 1500, 30000), ("cv_mix", {"VRT_MODE": 7}, 1000, 20000), ("cv_mix", {"VRT_MODE": 4}, 3000, 60000), ("waitn_mix", {"VRT_KIND": 2}, 1500, 30000),
              ("cv_mix", {"VRT_MODE": 0}, 800, 15000, "binary"), ("cv_mix", {"VRT_PLAINPM": 40}, 1500, 30000), ("muwait_mix", {"VRT_MODE": 3}, 2500, 50000),
              # MODE 5: every waiter (writer / reader / generic-lock) queued, then ONE broadcast (all must return) or ONE signal (>= 1, all
              # readers if only readers returned); MODE 6: all lock kinds x plain / timed / cancellable race the setter's broadcast
